@@ -1,10 +1,10 @@
-\* C12, quick: ledgers of up to 2 postings
+\* C12, quick: ledgers of up to 2 postings (plain programs + balance nested in function calls next to a NULL-able operand)
 CONSTANTS
   Threads = {1}
   CacheMode = "per row context"
   Split = FALSE
-  Programs <- Progs12_2
-INIT Init
+  Programs = 0
+INIT Init12q
 NEXT Next
 INVARIANTS TypeOK ConsultedInv PrefixSumInv LastInv ScannedInv SerialInv
 PROPERTIES NonInterference NoSharedState ProgConstant
